@@ -563,11 +563,12 @@ fn header_case(text: &str, path: &str, model: &mut model::Model, rep: &mut Repor
 }
 
 fn gen_header_file(r: &mut Rng) -> String {
-    // header fields in every quoting shape
-    let n = r.range(0, 3) as usize;
+    // header fields in every quoting shape; half of the files have a header the validator accepts
+    let valid = r.chance(1, 2);
+    let n = if valid { r.range(1, 2) as usize } else { r.range(0, 3) as usize };
     let mut fields: Vec<String> = vec![];
     for i in 0..n {
-        let base = match r.below(10) {
+        let base = match if valid { 9 } else { r.below(10) } {
             0 => "A".to_string(),
             1 => "B".to_string(),
             2 => "nosuch".to_string(),
@@ -576,7 +577,7 @@ fn gen_header_file(r: &mut Rng) -> String {
             5 => "".to_string(),
             _ => ["a", "b"][i % 2].to_string(),
         };
-        let f = match r.below(9) {
+        let f = match if valid { [1u64, 7, 8][r.below(3) as usize] } else { r.below(9) } {
             0 => format!("\"{}\"", base),
             1 => format!(" {} ", base),
             2 => format!("\" {}\"", base),
@@ -591,7 +592,7 @@ fn gen_header_file(r: &mut Rng) -> String {
     let mut s = fields.join(",");
     s.push_str(*r.pick(&["\n", "\r\n", "\n", ""]));
     let nrec = r.range(0, 3);
-    let width = if r.chance(1, 5) { r.range(0, 3) as usize } else { n.max(1) };
+    let width = if !valid && r.chance(1, 5) { r.range(0, 3) as usize } else { n.max(1) };
     for _ in 0..nrec {
         let cells: Vec<String> = (0..width).map(|_| nasty(r, 3)).collect();
         s.push_str(&rfc_write(&[cells]));
